@@ -68,6 +68,21 @@ CLAIMED["C07"] = dict(
     note="Trusted: Lean kernel; extract.py; the independent implementation shares the primitive library (pyca/hashlib) with joserfc, so a fault inside it common to both is invisible; parameter choice, input construction, encodings and framing are independent.",
     technique="Lean 4 proof (refinement to an RFC-derived spec) + generated tables + bidirectional interop differential",
     design="7/C07")
+CLAIMED["C02"] = dict(
+    text="Lean 4 soundness theorems over an executable model of JWE decryption (compact and JSON extraction, key and sender-key resolution, per-recipient header checks, every key-management mode incl. ECDH-ES/1PU with epk import and curve check, PBES2, AES-GCM key wrap, RSA, A*KW, the content-encryption wrappers, zip), for ALL primitives, registries, keys and inputs: a returned plaintext implies five dot-free segments, header decoded from the received segment, IV and CEK of exactly the enc's sizes, the CEK set recovered from the recipients being a singleton, and the AEAD accepting (key, IV, AAD, ciphertext, tag) with AAD = the Encoded Protected Header AS RECEIVED (+ '.' BASE64URL(aad)); CBC-HMAC acceptance is exact (tag = truncated MAC, compared before CBC decryption), direct modes require an empty encrypted key, key agreement only between keys on one curve, default mode requires every recipient to yield the same CEK, at least one recipient is required. Tie: model-vs-implementation differential and an independent reference decryptor over reference-encrypted tokens (21 alg x 8 enc x zip x 3 serializations x AAD), all single tamperings incl. header re-spelling, length changes, splices, key substitution, epk edits, multi-recipient cases.",
+    note="Trusted: Lean kernel; hand-written model checked by differential; primitives are parameters with no law assumed; AEAD security is the cryptographic assumption, not claimed. keyFromDict (pyca number->key import of epk) is answered by the library's binding in the oracle.",
+    technique="Lean 4 proof (soundness relative to abstract primitives) + oracle-protocol differential + reference decryptor",
+    design="7/C02")
+CLAIMED["C08"] = dict(
+    text="Lean 4: kernel-decided theorems that the live alg/enc model objects (regenerated) carry the RFC 7518 / ECDH-1PU / ChaCha-draft parameters (CEK/IV sizes, CBC-HMAC key split and tag length, HMAC hash, key-wrap sizes, RSA paddings and MGF1 hashes, PBES2 PRF, mode flags) and constants (limit, GCM-KW IV 96 bit, PBES2 salt 16 octets, p2c default >= 1000); c08_otherinfo_direct / _kw: the octets handed to Concat KDF equal the specification's AlgorithmID || PartyUInfo || PartyVInfo || SuppPubInfo [|| cctag] layout as lists, for all header values (apu/apv present, absent); c08_al, c08_aad, c08_cbc_layout. Tie: both directions against the independent jweref.py over the full alg x enc x zip x serialization x AAD x apu/apv space with arbitrary header spellings; OtherInfo three-way (Lean / reference / octets intercepted at ConcatKDFHash); published RFC 7520 section 5 and ECDH-1PU draft vectors.",
+    note="Trusted: Lean kernel; extract.py; both sides share the primitive library. Encryption-side layout is decided by the bidirectional differential (the Lean model covers decryption and the KDF/AAD/AL/CBC layout).",
+    technique="Lean 4 proof (layout theorems, generated tables) + bidirectional interop differential",
+    design="7/C08")
+CLAIMED["C17"] = dict(
+    text="Lean 4: c17_single_bounded_call — for ALL primitives decompress makes exactly one inflate call with output limit maxSize (= 256000, kernel-decided from the regenerated constant) and returns its output only if no output is pending; under the stated zlib contract (ZlibLaws) c17_exact: returns exactly the full expansion when it fits, ExceededSizeError when it does not - whatever the compression ratio - DecodeError for corrupt data, never a truncation; c17_roundtrip; c17_after_auth (decompression input is the output of a successful AEAD decryption, from the C02 soundness theorem). Tie: contract self-test against zlib at max-1..max+258 and beyond, compress/decompress vs the Lean model on the same streams, end-to-end JWEs with plaintext lengths around the limit, raw-DEFLATE framing of compress; thorough: RSS of a child decrypting a 1 GiB bomb.",
+    note="Trusted: Lean kernel; ZlibLaws about zlib (self-tested each run, exit 2 if zlib differs); memory use is runtime behaviour the model cannot exhibit: bounded by construction and measured (partial in that respect).",
+    technique="Lean 4 proof (bound outright, exactness under a stated zlib contract) + differential + boundary sweep",
+    design="7/C17")
 PENDING = {}
 
 
